@@ -71,8 +71,8 @@ CHECKS = {
         assumptions=["role trees are built by overlay hook H2 (yaml.Unmarshal into aggregatorRole + LinkChildrenToParents), as workflow.Load does before template processing",
                      "MIXED/PARTIAL/UNDEFINED are never injected at a leaf (the task manager never sends them)",
                      "goroutine interleavings of concurrent updates are sampled, not enumerated"],
-        quick=[R("^(TestAlgebraExhaustive|TestFoldFixed|TestCanary.*)$", 1, 1, 120), R("^TestFold$", 1200, 6, 300)],
-        thorough=[R("^(TestAlgebraExhaustive|TestFoldFixed|TestCanary.*)$", 1, 1, 120), R("^TestFold$", 12000, 12, 2400), R("^TestFold$", 1500, 2, 2400, race=True)],
+        quick=[R("^(TestAlgebraExhaustive|TestFoldFixed|TestCanary.*)$", 1, 1, 120), R("^TestFold$", 1200, 6, 300), R("^TestConcurrentSavedCase$", 1, 4, 300)],
+        thorough=[R("^(TestAlgebraExhaustive|TestFoldFixed|TestCanary.*)$", 1, 1, 120), R("^TestFold$", 12000, 12, 2400), R("^TestFold$", 1500, 2, 2400, race=True), R("^TestConcurrentSavedCase$", 1, 8, 2400)],
         floors={"concurrent": ("TestFold", 0.15), "mixed-criticality": ("TestFold", 0.4)},
     ),
     "C16": dict(
@@ -102,16 +102,27 @@ CHECKS = {
         floors={"cas-conflict": ("TestRunNumbers", 0.2)},
     ),
     "C05": dict(
-        pkg="./props/c05", level="exploration",
+        pkg="./props/c05", bins=["./cmd/simcore"], level="exploration",
         rule=("(a) rapid-generated agent attribute sets (incl. comma lists) and constraint stacks of 1-5 levels with the same attribute overridden "
               "nearer to the task, against a map-based reference for MergeParent and Attributes.Satisfy; generated port expressions (print/parse "
               "round trip); generated offers (cpu/mem/port ranges with holes) and wants (static ranges, dynamic port counts) against set "
               "arithmetic for Resources.Satisfy. Non-trivial: the reference rejects the (descriptor, agent) pair, an attribute is overridden, or "
-              "the expression contains a true range. Distinct = distinct case digests."),
-        assumptions=["only acceptance of an unsuitable agent/offer is a violation; refusing a suitable one is counted (class false-negative) but is not part of this property"],
-        quick=[R("^(TestConstraintsFixed|TestPortExpressionsFixed)$", 1, 1, 120), R("^TestConstraints$", 5000, 2, 300), R("^TestPortExpressions$", 3000, 1, 300), R("^TestResources$", 5000, 2, 300)],
+              "the expression contains a true range. (b) Whole core (TestPlacement): 1-3 generated agents (rack/kind attributes, ample or tight "
+              "cpu/memory, port ranges with holes, optionally tiny control-port region) and 1-6 generated tasks (constraints at task-template, "
+              "aggregator and role level incl. a nearer definition correcting or breaking a farther one, machine_id, wants, static port "
+              "ranges that may collide between tasks, 0-2 inbound TCP and IPC channels, direct/basic/fairmq) deployed by the real scheduler; "
+              "every LAUNCH received by the simulated master is joined with the offer it refers to: agent satisfies the merged constraints, "
+              "every port of the task is in the offer, static ports as written, at least one port per inbound TCP channel plus a control port "
+              "for controllable tasks, ports pairwise distinct on an agent, cpu/memory of all tasks of one offer within the offer, every offer "
+              "accepted or declined, the core survives. Distinct = distinct case digests."),
+        assumptions=["only acceptance of an unsuitable agent/offer is a violation; refusing a suitable one is counted (class false-negative / deployment-failed) but is not part of this property",
+                     "executor resources added by the framework to every task are not counted against the offer in the whole-core part"],
+        quick=[R("^(TestConstraintsFixed|TestPortExpressionsFixed)$", 1, 1, 120), R("^TestConstraints$", 5000, 2, 300), R("^TestPortExpressions$", 3000, 1, 300), R("^TestResources$", 5000, 2, 300),
+               R("^TestPlacementFixed$", 1, 1, 600), R("^TestPlacement$", 12, 8, 900, shrinktime="60s")],
         thorough=[R("^(TestConstraintsFixed|TestPortExpressionsFixed)$", 1, 1, 120), R("^TestConstraints$", 100000, 4, 1500), R("^TestPortExpressions$", 50000, 2, 1500), R("^TestResources$", 100000, 4, 1500),
+                  R("^TestPlacementFixed$", 1, 1, 600), R("^TestPlacement$", 250, 8, 3400, shrinktime="180s"),
                   FZ("FuzzPortExpression", 120)],
+        floors={"deployed": ("TestPlacement", 0.3), "offer-shared-by-tasks": ("TestPlacement", 0.25), "constraint-overridden": ("TestPlacement", 0.3), "static-ports": ("TestPlacement", 0.3)},
     ),
     "C02": dict(
         pkg="./props/c02", bins=["./cmd/simcore"], level="fault_enumeration",
